@@ -118,7 +118,8 @@ def replay(ctx, name, role, NK, present, P, model, edit, why):
     edges = [[i, j] for i in present for j in range(NK) if ev(P[i][j])]
     ed = dict(edit)
     if 'row' in ed:
-        ed['parents'] = [j for j in range(NK) if ev(ed.pop('row')[j])]
+        row = ed.pop('row')
+        ed['parents'] = [j for j in range(NK) if ev(row[j])]
     a = ctx.native.ask({'op': 'tc_edit', 'present': list(present), 'keys': NK, 'edges': edges, 'edit': ed})
     if 'ok' not in a:
         return ctx.mismatch(name, f'native tc_edit: {a}')
